@@ -31,6 +31,22 @@ def RecOK (c : Int → Int) (S : P → Prop) (qf d : Nat)
     ∃ r, (rec p ply α β s).1 = some r ∧ ResultOK G c qf d p α β v r ∧
       TTSound G c S qf (rec p ply α β s).2.tt
 
+/-- ranked form of `RecOK`: the node is required to lie in `N` ("may be searched with this remaining
+    depth"), the table is sound on `U` (every position the search can touch). -/
+def RecOKR (c : Int → Int) (N U : P → Prop) (qf d : Nat)
+    (rec : P → Nat → Int → Int → SearchState → Option SearchResult × SearchState) : Prop :=
+  ∀ (p : P) (ply : Nat) (α β : Int) (s : SearchState) (v : Int),
+    N p → TTSound G c U qf s.tt → RepOK s → Spec.V G qf d p = some v →
+    NEGATIVE_INFINITY ≤ α → α < β → β ≤ INFINITY →
+    s.stopSeen = false → (rec p ply α β s).2.stopSeen = false →
+    (rec p ply α β s).2.deeperHits = s.deeperHits →
+    ∃ r, (rec p ply α β s).1 = some r ∧ ResultOK G c qf d p α β v r ∧
+      TTSound G c U qf (rec p ply α β s).2.tt
+
+theorem recOK_iff_recOKR (c : Int → Int) (S : P → Prop) (qf d : Nat)
+    (rec : P → Nat → Int → Int → SearchState → Option SearchResult × SearchState) :
+    RecOK G c S qf d rec ↔ RecOKR G c S S qf d rec := Iff.rfl
+
 /-- one of the remaining moves attains the node value (kept opaque for `omega`). -/
 def Attains (c : Int → Int) (qf d : Nat) (p : P) (rest : List Move) (t : Int) : Prop :=
   ∃ m ∈ rest, ∃ x, Spec.V G qf d (G.play p m) = some x ∧ -c x = t
@@ -44,12 +60,14 @@ theorem qframe_cut (s : SearchState) (mv : Move) (ply depth : Nat) :
 variable {c : Int → Int} {S : P → Prop} {qf : Nat}
 
 /-- **loop invariant**: `alpha = max(α₀, best.score)`, everything seen so far is bounded by
-    `best.score`, and a `best.score` above `α₀` is the exact value of `best.bestMove`. -/
-theorem negamaxLoop_ok (hc : Clamp c) (hcl : Closed G S)
+    `best.score`, and a `best.score` above `α₀` is the exact value of `best.bestMove`.
+    Ranked form: the children lie in `N` (the set the recursive call is correct on), the table is
+    sound on `U`. -/
+theorem negamaxLoop_ok_ranked {N U : P → Prop} (hc : Clamp c)
     (rec : P → Nat → Int → Int → SearchState → Option SearchResult × SearchState) (d : Nat)
-    (hrecF : ∀ q ply a b s, Frame s (rec q ply a b s).2) (hrec : RecOK G c S qf d rec)
-    (p : P) (hSp : S p) (depth ply : Nat) (α₀ β v : Int) (hα : NEGATIVE_INFINITY ≤ α₀)
-    (hβ : β ≤ INFINITY) :
+    (hrecF : ∀ q ply a b s, Frame s (rec q ply a b s).2) (hrec : RecOKR G c N U qf d rec)
+    (p : P) (hch : ∀ m ∈ G.moves p, N (G.play p m)) (depth ply : Nat) (α₀ β v : Int)
+    (hα : NEGATIVE_INFINITY ≤ α₀) (hβ : β ≤ INFINITY) :
     ∀ (rest : List Move) (acc : LoopAcc) (s : SearchState),
       (∀ m ∈ rest, m ∈ G.moves p) →
       (∀ m ∈ rest, ∃ x, Spec.V G qf d (G.play p m) = some x) →
@@ -58,14 +76,14 @@ theorem negamaxLoop_ok (hc : Clamp c) (hcl : Closed G S)
       (c v ≤ c acc.best.score ∨ Attains G c qf d p rest (c v)) →
       (α₀ < c acc.best.score → c acc.best.score ≤ c v ∧ PVMove G qf d p acc.best) →
       (∃ m, acc.best.bestMove = some m ∧ m ∈ G.moves p) →
-      TTSound G c S qf s.tt → RepOK s → s.stopSeen = false →
+      TTSound G c U qf s.tt → RepOK s → s.stopSeen = false →
       (negamaxLoop G rec p depth ply β rest acc s).2.stopSeen = false →
       (negamaxLoop G rec p depth ply β rest acc s).2.deeperHits = s.deeperHits →
       ∃ acc', (negamaxLoop G rec p depth ply β rest acc s).1 = some acc' ∧
         Contract (c v) (c acc'.best.score) α₀ β ∧
         (∃ m, acc'.best.bestMove = some m ∧ m ∈ G.moves p) ∧
         (α₀ < c acc'.best.score → c acc'.best.score < β → PVMove G qf d p acc'.best) ∧
-        TTSound G c S qf (negamaxLoop G rec p depth ply β rest acc s).2.tt := by
+        TTSound G c U qf (negamaxLoop G rec p depth ply β rest acc s).2.tt := by
   intro rest
   induction rest with
   | nil =>
@@ -95,7 +113,7 @@ theorem negamaxLoop_ok (hc : Clamp c) (hcl : Closed G S)
     have hmv : mv ∈ G.moves p := hmem mv List.mem_cons_self
     obtain ⟨x, hx⟩ := hex mv List.mem_cons_self
     have hubx := hub mv List.mem_cons_self x hx
-    have hrec' := hrec (G.play p mv) (ply + 1) (-β) (-acc.alpha) (polled s) x (hcl p mv hSp hmv) hT
+    have hrec' := hrec (G.play p mv) (ply + 1) (-β) (-acc.alpha) (polled s) x (hch mv hmv) hT
       (hR.of_rep rfl) hx (by omega) (by omega) (by omega) hs1
     have hF := hrecF (G.play p mv) (ply + 1) (-β) (-acc.alpha) (polled s)
     have hLF := fun a s' => negamaxLoop_frame G rec hrecF p depth ply β rest a s'
@@ -237,6 +255,30 @@ theorem negamaxLoop_ok (hc : Clamp c) (hcl : Closed G S)
         · subst e; exact ⟨mv, rfl, hmv⟩
         · subst e; exact hM
 
+/-- the closed-set form of `negamaxLoop_ok_ranked`. -/
+theorem negamaxLoop_ok (hc : Clamp c) (hcl : Closed G S)
+    (rec : P → Nat → Int → Int → SearchState → Option SearchResult × SearchState) (d : Nat)
+    (hrecF : ∀ q ply a b s, Frame s (rec q ply a b s).2) (hrec : RecOK G c S qf d rec)
+    (p : P) (hSp : S p) (depth ply : Nat) (α₀ β v : Int) (hα : NEGATIVE_INFINITY ≤ α₀)
+    (hβ : β ≤ INFINITY) :
+    ∀ (rest : List Move) (acc : LoopAcc) (s : SearchState),
+      (∀ m ∈ rest, m ∈ G.moves p) →
+      (∀ m ∈ rest, ∃ x, Spec.V G qf d (G.play p m) = some x) →
+      (∀ m ∈ rest, ∀ x, Spec.V G qf d (G.play p m) = some x → -c x ≤ c v) →
+      acc.alpha = max α₀ (c acc.best.score) → acc.alpha < β →
+      (c v ≤ c acc.best.score ∨ Attains G c qf d p rest (c v)) →
+      (α₀ < c acc.best.score → c acc.best.score ≤ c v ∧ PVMove G qf d p acc.best) →
+      (∃ m, acc.best.bestMove = some m ∧ m ∈ G.moves p) →
+      TTSound G c S qf s.tt → RepOK s → s.stopSeen = false →
+      (negamaxLoop G rec p depth ply β rest acc s).2.stopSeen = false →
+      (negamaxLoop G rec p depth ply β rest acc s).2.deeperHits = s.deeperHits →
+      ∃ acc', (negamaxLoop G rec p depth ply β rest acc s).1 = some acc' ∧
+        Contract (c v) (c acc'.best.score) α₀ β ∧
+        (∃ m, acc'.best.bestMove = some m ∧ m ∈ G.moves p) ∧
+        (α₀ < c acc'.best.score → c acc'.best.score < β → PVMove G qf d p acc'.best) ∧
+        TTSound G c S qf (negamaxLoop G rec p depth ply β rest acc s).2.tt :=
+  negamaxLoop_ok_ranked G hc rec d hrecF hrec p (fun m hm => hcl p m hSp hm) depth ply α₀ β v hα hβ
+
 /-! ### table hit / table store -/
 
 /-- a usable entry of exactly the requested depth yields a correct result. -/
@@ -339,17 +381,19 @@ theorem innerResult_cons (rec : P → Nat → Int → Int → SearchState → Op
   · rename_i h'; rw [h] at h'; cases h'
   · rename_i m0' tl' h'; rw [h] at h'; cases h'; rfl
 
-/-- an inner node after a table miss. -/
-theorem innerResult_ok (hc : Clamp c) (hcl : Closed G S) (hinj : HashInj G S)
+/-- an inner node after a table miss.  Ranked form: the node lies in `U` (it is stored in the table),
+    its children in `N`. -/
+theorem innerResult_ok_ranked {N U : P → Prop} (hc : Clamp c) (hinj : HashInj G U)
     (rec : P → Nat → Int → Int → SearchState → Option SearchResult × SearchState) (d : Nat)
-    (hrecF : ∀ q ply a b s, Frame s (rec q ply a b s).2) (hrec : RecOK G c S qf d rec)
+    (hrecF : ∀ q ply a b s, Frame s (rec q ply a b s).2) (hrec : RecOKR G c N U qf d rec)
     (p : P) (ply : Nat) (α β : Int) (ttMove : Option Move) (s : SearchState) (v : Int)
-    (hSp : S p) (hT : TTSound G c S qf s.tt) (hR : RepOK s) (hv : Spec.V G qf (d + 1) p = some v)
+    (hSp : U p) (hch : ∀ m ∈ G.moves p, N (G.play p m))
+    (hT : TTSound G c U qf s.tt) (hR : RepOK s) (hv : Spec.V G qf (d + 1) p = some v)
     (hα : NEGATIVE_INFINITY ≤ α) (hαβ : α < β) (hβ : β ≤ INFINITY) (hs : s.stopSeen = false)
     (hfin : (innerResult G rec d p ply α β ttMove s).2.stopSeen = false)
     (hdh : (innerResult G rec d p ply α β ttMove s).2.deeperHits = s.deeperHits) :
     ∃ r, (innerResult G rec d p ply α β ttMove s).1 = some r ∧ ResultOK G c qf (d + 1) p α β v r ∧
-      TTSound G c S qf (innerResult G rec d p ply α β ttMove s).2.tt := by
+      TTSound G c U qf (innerResult G rec d p ply α β ttMove s).2.tt := by
   cases hms : G.moves p with
   | nil =>
     rw [innerResult_nil G rec d p ply α β ttMove s hms]
@@ -373,7 +417,7 @@ theorem innerResult_ok (hc : Clamp c) (hcl : Closed G S) (hinj : HashInj G S)
       intro h; rw [h] at hperm; exact hne (List.Perm.eq_nil hperm.symm)
     have hLF := negamaxLoop_frame G rec hrecF p (d + 1) ply β ordered
       ⟨α, ⟨NEGATIVE_INFINITY, some (ordered.headD m0)⟩⟩ s
-    have hloop := negamaxLoop_ok G hc hcl rec d hrecF hrec p hSp (d + 1) ply α β v hα hβ ordered
+    have hloop := negamaxLoop_ok_ranked G hc rec d hrecF hrec p hch (d + 1) ply α β v hα hβ ordered
       ⟨α, ⟨NEGATIVE_INFINITY, some (ordered.headD m0)⟩⟩ s
       (fun m hm => hperm.mem_iff.1 hm)
       (fun m hm => hex m (hperm.mem_iff.1 hm))
@@ -417,9 +461,24 @@ theorem innerResult_ok (hc : Clamp c) (hcl : Closed G S) (hinj : HashInj G S)
     refine ⟨acc.best, rfl, hres, ?_⟩
     exact ttSound_store G hinj hT2 p hSp _ _ _ _ (store_entry_ok G hc p d α β v hα hαβ hβ acc.best hv hres)
 
+/-- the closed-set form of `innerResult_ok_ranked`. -/
+theorem innerResult_ok (hc : Clamp c) (hcl : Closed G S) (hinj : HashInj G S)
+    (rec : P → Nat → Int → Int → SearchState → Option SearchResult × SearchState) (d : Nat)
+    (hrecF : ∀ q ply a b s, Frame s (rec q ply a b s).2) (hrec : RecOK G c S qf d rec)
+    (p : P) (ply : Nat) (α β : Int) (ttMove : Option Move) (s : SearchState) (v : Int)
+    (hSp : S p) (hT : TTSound G c S qf s.tt) (hR : RepOK s) (hv : Spec.V G qf (d + 1) p = some v)
+    (hα : NEGATIVE_INFINITY ≤ α) (hαβ : α < β) (hβ : β ≤ INFINITY) (hs : s.stopSeen = false)
+    (hfin : (innerResult G rec d p ply α β ttMove s).2.stopSeen = false)
+    (hdh : (innerResult G rec d p ply α β ttMove s).2.deeperHits = s.deeperHits) :
+    ∃ r, (innerResult G rec d p ply α β ttMove s).1 = some r ∧ ResultOK G c qf (d + 1) p α β v r ∧
+      TTSound G c S qf (innerResult G rec d p ply α β ttMove s).2.tt :=
+  innerResult_ok_ranked G hc hinj rec d hrecF hrec p ply α β ttMove s v hSp
+    (fun m hm => hcl p m hSp hm) hT hR hv hα hαβ hβ hs hfin hdh
+
 /-- **main induction**: `negamax qfuel d` is correct for every depth. -/
-theorem negamax_ok (hc : Clamp c) (hcl : Closed G S) (hinj : HashInj G S) (qfuel : Nat) (hq : qf ≤ qfuel) :
-    ∀ d, RecOK G c S qf d (negamax G qfuel d) := by
+theorem negamax_ok_ranked {S : Nat → P → Prop} (hc : Clamp c) (hr : Ranked G S)
+    (hinj : HashInj G (Ranked.U S)) (qfuel : Nat) (hq : qf ≤ qfuel) :
+    ∀ d, RecOKR G c (S d) (Ranked.U S) qf d (negamax G qfuel d) := by
   intro d
   induction d with
   | zero =>
@@ -453,7 +512,7 @@ theorem negamax_ok (hc : Clamp c) (hcl : Closed G S) (hinj : HashInj G S) (qfuel
       rw [hQF.tt]; exact hT
     · -- hit
       have hnd := counted_deeper _ _ _ hdh
-      refine ⟨_, rfl, hit_ok G hc p 0 α β v hα hαβ hβ e (hT p hSp e he) (by omega) hv hb, ?_⟩
+      refine ⟨_, rfl, hit_ok G hc p 0 α β v hα hαβ hβ e (hT p (Ranked.mem_U hSp) e he) (by omega) hv hb, ?_⟩
       rw [counted_tt]; exact hT
   | succ d ih =>
     intro p ply α β s v hSp hT hR hv hα hαβ hβ hs hfin hdh
@@ -471,12 +530,22 @@ theorem negamax_ok (hc : Clamp c) (hcl : Closed G S) (hinj : HashInj G S) (qfuel
     all_goals subst h2
     all_goals simp only at hfin hdh ⊢
     · -- miss: the move loop
-      exact innerResult_ok G hc hcl hinj (negamax G qfuel d) d (negamax_frame G qfuel d) ih p ply α β mvv
-        s.incrementNodes v hSp hT (hR.of_rep rfl) hv hα hαβ hβ hs hfin hdh
+      exact innerResult_ok_ranked G hc hinj (negamax G qfuel d) d (negamax_frame G qfuel d) ih p ply α β mvv
+        s.incrementNodes v (Ranked.mem_U hSp) (fun m hm => hr.step d p m hSp hm) hT (hR.of_rep rfl) hv hα hαβ hβ
+        hs hfin hdh
     · -- hit
       have hnd := counted_deeper _ _ _ hdh
-      refine ⟨_, rfl, hit_ok G hc p (d + 1) α β v hα hαβ hβ e (hT p hSp e he) (by omega) hv hb, ?_⟩
+      refine ⟨_, rfl, hit_ok G hc p (d + 1) α β v hα hαβ hβ e (hT p (Ranked.mem_U hSp) e he) (by omega) hv hb, ?_⟩
       rw [counted_tt]; exact hT
+
+/-- **main induction**, closed-set form: a closed set is a constant ranked family. -/
+theorem negamax_ok (hc : Clamp c) (hcl : Closed G S) (hinj : HashInj G S) (qfuel : Nat) (hq : qf ≤ qfuel) :
+    ∀ d, RecOK G c S qf d (negamax G qfuel d) := by
+  intro d
+  have h := negamax_ok_ranked G (S := fun _ => S) hc (Ranked.ofClosed hcl)
+    (by rw [Ranked.U_const]; exact hinj) qfuel hq d
+  rw [Ranked.U_const] at h
+  exact h
 
 end contract
 end Flounder.Search
